@@ -230,6 +230,44 @@ pub fn check(s: &'static dyn Proto, c: &Case, st: &mut Stats, _k: &KnownFindings
     remote::set_handle_mode(false);
     hr?;
     st.eval(3);
+    // ---- an external key that serializes as a 16-byte slot handle (SecretKey::Len != private key
+    // length, as in the crate's documentation example): the server works, can be saved, and the
+    // restored server behaves like the direct-key server
+    remote::reset(0);
+    remote::set_short_handle(true);
+    let sr = (|| -> CaseResult {
+        let hsetup = guarded(|| s.remote_setup_new_with_key(&mut t(1).rng(), &sk))
+            .map_err(|p| Fail::new(format!("building a server around a slot-handle key panicked: {p}")))?
+            .map_err(|x| e("remote setup (slot handle)", x))?;
+        let hbytes = guarded(|| s.remote_setup_serialize(hsetup.as_ref()))
+            .map_err(|p| Fail::new(format!("ServerSetup::serialize panicked for an external key with SecretKey::Len = 16: {p}")))?;
+        let dbytes = s.ser(Codec::Native, &direct);
+        ensure_eq!(hbytes.len(), dbytes.len() - m.nsk + 16, "length of ServerSetup<_, slot-handle key>::serialize");
+        // everything but the key slot is the direct server's stored state
+        ensure_eq!(&hbytes[..m.nh], &dbytes[..m.nh], "OPRF seed in the stored state of the slot-handle server");
+        ensure_eq!(&hbytes[m.nh..m.nh + 8], &remote::SLOT_TAG[..], "key slot of the stored state is not the key's own serialization");
+        ensure_eq!(&hbytes[m.nh + 16..], &dbytes[m.nh + m.nsk..], "fake key in the stored state of the slot-handle server");
+        let restored = guarded(|| s.remote_setup_deserialize(&hbytes))
+            .map_err(|p| Fail::new(format!("ServerSetup::deserialize panicked for an external key with SecretKey::Len = 16: {p}")))?
+            .map_err(|x| Fail::new(format!("a server whose external key serializes as a 16-byte handle cannot be restored: {x:?}")))?;
+        ensure_eq!(s.remote_setup_serialize(restored.as_ref()), hbytes, "slot-handle server: serialize/deserialize round trip");
+        remote::take_calls();
+        for (which, srv) in [("fresh", &hsetup), ("restored", &restored)] {
+            let resp_h = s.remote_server_reg_start(srv.as_ref(), &req, &cred).map_err(|x| e("server reg start (slot handle)", x))?;
+            ensure_eq!(s.ser(Codec::Native, &resp_h), s.ser(Codec::Native, &resp_d), "registration response of the {which} slot-handle server differs from the direct-key server");
+            let (lresp_h, sst_h) = s
+                .remote_server_login_start(&mut t(5).rng(), srv.as_ref(), rec, &lreq, &cred, ctx.as_deref(), ids)
+                .map_err(|x| e("server login start (slot handle)", x))?;
+            only_allowed(&remote::take_calls(), "ServerRegistration::start/ServerLogin::start (slot-handle server)")?;
+            ensure_eq!(s.ser(Codec::Native, &lresp_h), lresp_d_bytes, "credential response of the {which} slot-handle server");
+            ensure_eq!(s.ser(Codec::Native, &sst_h), sst_d_bytes, "pending state of the {which} slot-handle server");
+        }
+        Ok(())
+    })();
+    remote::set_short_handle(false);
+    sr?;
+    st.eval(6);
+    st.label("slot-handle key (SecretKey::Len = 16)");
     remote::reset(0);
     st.label(if c.fake_record { "record:none" } else { "record:real" });
     st.sample(|| json!({"suite": m.name, "pw": c.pw.describe(), "fake_record": c.fake_record,
@@ -247,7 +285,7 @@ pub const BUDGET: Budget = Budget {
 pub fn run(cfg: &RunCfg) -> (Outcome, EvidenceExtra) {
     let out = run_property(cfg, "C18", crate::suites::suites20(), BUDGET, strategy, check);
     let ev = EvidenceExtra {
-        rule: "case = inputs/tapes as C01 (real or absent password file); the server is built twice from the same private key and the same tapes: ServerSetup<CS> and ServerSetup<CS, RemoteKey> where RemoteKey is a harness implementation of the public SecretKey trait that journals every call. Differential oracle: ServerSetup::serialize, registration response, credential response, pending state and both session keys are byte-identical; during ServerRegistration::start / ServerLogin::start / from_private_key only public_key and diffie_hellman are called. Fault oracle: for every call index n the operation makes (ServerLogin::start, KeyPair::from_private_key, ServerSetup::deserialize) a key failing at call n with Custom(n) makes the operation return exactly LibraryError(Custom(n)), without panic and without output; n = calls+1 is the no-fault control. Additionally an external key whose serialize() is an opaque handle (resolved by its own deserialize) is saved and restored through ServerSetup::serialize/deserialize and must still produce the direct-key server's responses. evaluation = one comparison or fault position; distinct by hash of (suite, case)".into(),
+        rule: "case = inputs/tapes as C01 (real or absent password file); the server is built twice from the same private key and the same tapes: ServerSetup<CS> and ServerSetup<CS, RemoteKey> where RemoteKey is a harness implementation of the public SecretKey trait that journals every call. Differential oracle: ServerSetup::serialize, registration response, credential response, pending state and both session keys are byte-identical; during ServerRegistration::start / ServerLogin::start / from_private_key only public_key and diffie_hellman are called. Fault oracle: for every call index n the operation makes (ServerLogin::start, KeyPair::from_private_key, ServerSetup::deserialize) a key failing at call n with Custom(n) makes the operation return exactly LibraryError(Custom(n)), without panic and without output; n = calls+1 is the no-fault control. Additionally an external key whose serialize() is an opaque handle (resolved by its own deserialize) is saved and restored through ServerSetup::serialize/deserialize and must still produce the direct-key server's responses; the same with a second key type whose serialization is a 16-byte slot handle (SecretKey::Len differs from the private-key length of every group, as in the crate's documentation example): building, ServerSetup::serialize/deserialize (no panic, key slot = the key's own serialization, rest = the direct server's state) and the responses of the fresh and the restored server. evaluation = one comparison or fault position; distinct by hash of (suite, case)".into(),
         assumptions: vec!["fault positions are exhaustive per sampled input".into()],
         exhaustive: Some(false),
         extra: Default::default(),
